@@ -58,6 +58,13 @@ def as_int(x):
     return x
 
 
+def lnot(x):
+    """logical negation of a native or symbolic boolean"""
+    if isinstance(x, px.SymBool):
+        return px.wrap(px.tm.not_(x.t))
+    return not x
+
+
 def all_eq(xs, ys):
     """conjunction of elementwise equalities as one condition (False if lengths differ)"""
     if len(xs) != len(ys):
